@@ -24,6 +24,7 @@ import (
 	"github.com/tikv/pd/server/api"
 	"github.com/tikv/pd/server/core"
 	"github.com/tikv/pd/server/kv"
+	"github.com/tikv/pd/pkg/tsoutil"
 	"github.com/tikv/pd/server/tso"
 	"go.etcd.io/etcd/clientv3"
 
@@ -532,11 +533,11 @@ func (w *world) exec(o *op) string {
 			time.Sleep(10 * time.Millisecond)
 			t0 = w.tsoNow()
 		}
-		o.Lo = time.Now().Unix()
+		o.Lo = t0.Unix() // the bracket is taken on the clock the handler uses (the TSO), not on the wall clock
 		r, err := w.x.S.UpdateServiceGCSafePoint(w.ctx, &pdpb.UpdateServiceGCSafePointRequest{Header: w.x.Header(),
 			ServiceId: []byte(o.ID), TTL: o.TTL, SafePoint: o.SP})
-		o.Hi = time.Now().Unix()
 		t1 := w.tsoNow()
+		o.Hi = t1.Unix()
 		o.Now = t0.Unix()
 		noteErr(err)
 		if err != nil || r.GetHeader().GetError() != nil {
@@ -566,7 +567,7 @@ func (w *world) exec(o *op) string {
 			time.Sleep(10 * time.Millisecond)
 			t0 = w.tsoNow()
 		}
-		o.Lo = time.Now().Unix()
+		o.Lo = t0.Unix() // the bracket is taken on the clock the handler uses (the TSO), not on the wall clock
 		type sres struct {
 			r   *pdpb.UpdateServiceGCSafePointResponse
 			err error
@@ -600,8 +601,8 @@ func (w *world) exec(o *op) string {
 		case <-time.After(120 * time.Second):
 			panic("svcil neither parked nor finished")
 		}
-		o.Hi = time.Now().Unix()
 		t1 := w.tsoNow()
+		o.Hi = t1.Unix()
 		o.Now = t0.Unix()
 		noteErr(res.err)
 		if res.err != nil || res.r.GetHeader().GetError() != nil {
@@ -661,7 +662,7 @@ func (w *world) exec(o *op) string {
 			time.Sleep(10 * time.Millisecond)
 			t0 = w.tsoNow()
 		}
-		o.Lo = time.Now().Unix()
+		o.Lo = t0.Unix() // the bracket is taken on the clock the handler uses (the TSO), not on the wall clock
 		w.b.Bind("svcx")
 		w.b.Script("svcx", script)
 		r, err := w.x.S.UpdateServiceGCSafePoint(w.ctx, &pdpb.UpdateServiceGCSafePointRequest{Header: w.x.Header(),
@@ -669,8 +670,8 @@ func (w *world) exec(o *op) string {
 		w.R.CountN("svcx:steps-fired", w.b.Fired("svcx"))
 		w.b.Script("svcx", nil)
 		w.b.Unbind()
-		o.Hi = time.Now().Unix()
 		t1 := w.tsoNow()
+		o.Hi = t1.Unix()
 		o.Now = t0.Unix()
 		noteErr(err)
 		if err != nil || r.GetHeader().GetError() != nil {
@@ -946,6 +947,31 @@ func (w *world) heldRead() *caseRec {
 	c.Obs = append(c.Obs, "("+respObs(u2)+", "+w.view()+")")
 	w.step(&c, op{K: "get"})
 	w.R.Count("held-etcd-read:scenario")
+	return &c
+}
+
+// tsoAhead: the TSO clock - the clock UpdateServiceGCSafePoint prunes with - is moved 10 minutes ahead of the wall clock
+// (admin reset-ts through the real Handler.ResetTS, allowed up to 24 h; the same happens after pd-recover or a fail-over to
+// a member with a lagging clock). Registrations with TTLs shorter than the offset follow: an acknowledged one must be
+// honoured until now + TTL on that clock. Run last on this server: the TSO stays ahead from here on.
+func (w *world) tsoAhead() *caseRec {
+	w.reset()
+	ahead := w.tsoNow().Add(10 * time.Minute)
+	if err := w.x.S.GetHandler().ResetTS(tsoutil.ComposeTS(ahead.UnixNano()/int64(time.Millisecond), 0)); err != nil {
+		w.R.Notes = append(w.R.Notes, "tso-ahead scenario incomplete: ResetTS refused: "+err.Error())
+		return nil
+	}
+	if d := w.tsoNow().Sub(time.Now()); d < 9*time.Minute {
+		w.R.Notes = append(w.R.Notes, fmt.Sprintf("tso-ahead scenario incomplete: the TSO is only %v ahead", d))
+		return nil
+	}
+	var c caseRec
+	inf := int64(math.MaxInt64)
+	for _, o := range []op{{K: "svc", ID: "gc_worker", TTL: inf, SP: 30}, {K: "svc", ID: "a1", TTL: 60, SP: 40}, {K: "svc", ID: "b2", TTL: 300, SP: 45},
+		{K: "svc", ID: "gc_worker", TTL: inf, SP: 50}, {K: "svc", ID: "a1", TTL: 60, SP: 41}, {K: "svc", ID: "h4", TTL: 5, SP: 60}, {K: "svc", ID: "gc_worker", TTL: inf, SP: 55}} {
+		w.step(&c, o)
+	}
+	w.R.Count("tso-ahead-of-wall-clock:scenario")
 	return &c
 }
 
@@ -1572,6 +1598,11 @@ func main() {
 			w.reset()
 			c := w.genCase(r, kind, 14, lockedMode)
 			emit(c, []string{"gen:gc-interleavings", "gen:service-histories", "gen:mixed-with-odd-ids"}[kind])
+		}
+	}
+	if *replay == "" {
+		if c := w.tsoAhead(); c != nil && !leaderLost {
+			emit(*c, "directed:tso-ahead-of-wall-clock")
 		}
 	}
 	if *replay == "" {
